@@ -8,7 +8,7 @@ COMMON_NOTE = ('Trusted: Lean 4.33 kernel (+ leanchecker in the thorough tier); 
 
 # properties whose check is built, self-tested and integrated (the MANIFEST text of each lives in
 # harness/props/<id>.py : MANIFEST)
-CLAIMED = ['C01', 'C02', 'C03', 'C04', 'C05', 'C06', 'C07', 'C08', 'C09', 'C10', 'C11', 'C12', 'C13', 'C14', 'C15', 'C16', 'C17', 'C19', 'C20']
+CLAIMED = ['C01', 'C02', 'C03', 'C04', 'C05', 'C06', 'C07', 'C08', 'C09', 'C10', 'C11', 'C12', 'C13', 'C14', 'C15', 'C16', 'C17', 'C18', 'C19', 'C20']
 
 # properties not claimed, with the reason (kept current; empty reason = still to be built)
 NOT_APPLICABLE = {}
